@@ -169,10 +169,10 @@ CHECKS = {
             "a slot is a MAC address; session ids (random UUIDs) are projected to the slot whose latest session they name, a call for a slot without session uses the id of its ended session or an id that never existed; "
             "addresses are projected to units of the harness' own pools",
             "Authenticator and AddressAllocator are the harness' own (they are the manager's environment): the outcome of an authentication is chosen by the event; the allocator hands out the unit a session already "
-            "holds in the pool, else the lowest free one, a session holds at most one IPv4 unit (moving to another pool frees the old one), release is by address",
+            "holds in the pool, else the lowest free one; nothing is freed except by ReleaseIPv4 / ReleaseIPv6, which release by address (like the allocators cmd/bng wires in)",
             "concurrency: at most one call is in flight; it runs on a second goroutine and parks where the real code holds no lock and calls out - inside the Authenticator (Authenticate), inside AllocateIPv4 after the "
             "allocator has decided (AssignAddress), at the verif gate 'terminate.afterMark' and inside ReleaseIPv4 after the release (TerminateSession, the cleanup pass: gate only); every other call runs to completion "
-            "on the harness goroutine meanwhile; calls the harness does not schedule in that window are skipped (no-op edges): a second call in flight, time, a pass, calls on the session being ended, "
+            "on the harness goroutine meanwhile; calls the harness does not schedule in that window are skipped (no-op edges): a second call in flight, time, a pass, calls on the session being ended, anything but 'UpdateActivity for every other session' while a pass is in flight, "
             "on a session being authenticated other than SetWalledGarden / ClearWalledGarden / ActivateSession / UpdateActivity, on a session being assigned other than TerminateSession",
             "where two overlapping calls both write one session's state the contract does not prescribe the successor state (the ghost adopts the observed one); WalledNotActive, IndexExact, StatsTrue and the timeout "
             "clauses are still judged there",
